@@ -24,8 +24,10 @@ def run(prop, tier, seed, t0):
     for g in glob.glob(os.path.join(build.REPO, 'tests', 'golden-decompression', '*.zst')):
         shutil.copy(g, os.path.join(d, 'base', 'plain', 'golden-' + os.path.basename(g)))
     gres = core.Result()
-    R.run_range(gres, exe['plain'], ['mode=gen', 'dir=' + d, 'ncomp=%d' % (3000 if thorough else 350)], 0, 1, label='h_c04/plain', variant='plain')
+    R.run_range(gres, exe['plain'], ['mode=gen', 'dir=' + d, 'ncomp=%d' % (3000 if thorough else 350), 'nforge=%d' % (80 if thorough else 8)], 0, 1, label='h_c04/plain', variant='plain')
     nframes = int(gres.other.get('GEN', [['0']])[0][0])
+    forged = gres.other.get('FORGED', []); forge_refused = gres.other.get('FORGE-REFUSED', [])
+    viol_gen = [{'key': 'generator:forged-valid-parse-refused-by-compressSequences', 'case': 0, 'msg': str(f), 'replay': {'label': 'h_c04/plain', 'args': [], 'seed': seed, 'case': 0}} for f in forge_refused]
     if nframes < 100:
         raise build.BuildError('C04: frame generation produced only %d frames' % nframes)
     shutil.rmtree(os.path.join(d, 'base'), ignore_errors=True)
@@ -33,7 +35,7 @@ def run(prop, tier, seed, t0):
     ref = core.Result()
     R.run_sharded(ref, exe['plain'], ['mode=ref', 'dir=' + d], nframes, label='h_c04/plain', variant='plain')
     rtab = {f[0]: (f[1], f[2], f[3], f[4]) for f in ref.other.get('R', [])}
-    viol = list(ref.viol)
+    viol = list(ref.viol) + viol_gen
     for f in ref.other.get('RSRC', []):
         viol.append({'key': 'reference:R-output-differs-from-generator-original', 'case': 0, 'msg': f[0], 'replay': {'label': 'h_c04/plain', 'args': [], 'seed': seed, 'case': 0}})
     # every variant, every path
@@ -105,7 +107,7 @@ def run(prop, tier, seed, t0):
         'rule': 'frame set = tests/decodecorpus.c frames built from the tree (with and without dictionary; format features the compressor never emits), golden files, compressor output aimed at long offsets / big windows / >64 KiB literal sections / dictionaries, plus bit-flipped copies; '
                 'R (independent decoder, forked for mutated input) decides validity and the expected bytes; each frame goes through 10 decode paths {one-shot, 2 streaming segmentations, stableOut, disableHuffmanAssembly, buffer-less, in-place with advertised margin, DDict cold/warm/streaming} in 9 build variants '
                 '{default asm+BMI2, no asm, no BMI2, HUF X1, HUF X2, short / long(prefetch) sequence decoder, no legacy, ASan}; valid frames must succeed with R\'s bytes everywhere; all frames must get the same verdict and bytes on every path. distinct non-trivial = valid base frames compared',
-        'frames': len(frames), 'valid_base_frames': nvalid, 'mutated_frames': nmut, 'mutated_frames_still_valid_per_R': nmut_ok, 'path_x_variant_comparisons': ncmp, 'frames_with_full_agreement': nagree, 'invalid_frames_with_path_disagreement(out of scope)': res_all.stats.get('invalid_frames_with_path_disagreement(out of scope)', 0), 'paths': sorted(paths_seen), 'variants': VARIANTS,
+        'frames': len(frames), 'forged_parse_frames': len(forged), 'forged_parse_sequences': sum(int(f[1]) for f in forged), 'valid_base_frames': nvalid, 'mutated_frames': nmut, 'mutated_frames_still_valid_per_R': nmut_ok, 'path_x_variant_comparisons': ncmp, 'frames_with_full_agreement': nagree, 'invalid_frames_with_path_disagreement(out of scope)': res_all.stats.get('invalid_frames_with_path_disagreement(out of scope)', 0), 'paths': sorted(paths_seen), 'variants': VARIANTS,
         'features_in_valid_frames(R events)': {k: v for k, v in ref.stats.items() if k.startswith('feat_')}, 'sequence_mode_bytes_seen': ref.ncells('seq_modes'),
         'samples': [{'frame': f, 'R': rtab[f][0], 'bytes': rtab[f][1], 'kind': rtab[f][3]} for f in frames[:: max(1, len(frames) // 6)]][:8],
     }
